@@ -217,7 +217,7 @@ def any_tier(**kw):
 
 @st.composite
 def textgrid(draw, style=None, max_tiers: int = 3, label=SMALL_LABELS, clean: bool = True,
-             min_tiers: int = 1, name_strategy=None):
+             min_tiers: int = 1, name_strategy=None, late_start: bool = False):
     """A Textgrid spec.  clean=True: every tier shares the textgrid span
     (validate() is True)."""
     if style is None:
@@ -240,6 +240,9 @@ def textgrid(draw, style=None, max_tiers: int = 3, label=SMALL_LABELS, clean: bo
     hi = max(t["maxT"] for t in tiers)
     if clean:
         hi = hi + draw(st.sampled_from([0.0, 0.0, 1.0]))
+        firsts = [e[0] for t in tiers for e in t["entries"]]
+        if late_start and firsts and min(firsts) > 0 and draw(st.integers(0, 2)) == 0:
+            lo = min(firsts)  # a textgrid that does not start at 0
         for t in tiers:
             t["minT"], t["maxT"] = lo, hi
     return {"tiers": tiers, "minT": lo, "maxT": hi, "style": style}
